@@ -804,6 +804,13 @@ impl<'i> Interp<'i> {
     }
 
     fn index_read(container: &V, key: &V) -> X<V> {
+        // Reading far beyond the end (any whole number from 10^9 up, or +inf) is reading a missing element: no
+        // value of the model is that long. (Writing there is another matter: it would extend the sequence.)
+        if let (V::Num(n), V::Str(_) | V::Arr(_)) = (key, container) {
+            if *n >= 1e9 && (n.fract() == 0.0 || *n == f64::INFINITY) {
+                return Ok(V::Mys);
+            }
+        }
         match container {
             V::Str(s) => match key {
                 V::Num(_) => match Self::index_kind(key)? {
